@@ -160,15 +160,28 @@ func VH_C14_U3_merge() {
 	ct := newCollisionTable()
 	state := 0
 	dst := getIndexPath(dir, nsrc-1, 0, "m")
-	idx, err := merge(readers, dst, ct, &state, false)
-	vrt.Assert("merge-ok", vrt.All(err == nil, idx != nil))
+	// mode 0: ordinary merge writing the merged file; mode 1: the merge GC runs before a pass
+	// (forGC: no output file, collision table only); mode 2: hint_no_merged configuration
+	mode := vrt.Choice("mode", 3)
+	Conf.NoMerged = mode == 2
+	idx, err := merge(readers, dst, ct, &state, mode == 1)
+	Conf.NoMerged = false
+	if mode == 0 {
+		vrt.Assert("merge-ok", vrt.All(err == nil, idx != nil))
+	} else {
+		vrt.Assert("merge-without-output-ok", vrt.All(err == nil, idx == nil))
+		_, serr := os_Stat(dst)
+		vrt.Assert("no-merged-file-written", serr != nil)
+	}
 	// expected winner per (hash,key): the item from the highest chunk (ties cannot occur: one
 	// item per (hash,key) per file)
 	r := newHintFileReader(dst, 0, 4096)
-	vrt.Assert("merged-opens", r.open() == nil)
+	if mode == 0 {
+		vrt.Assert("merged-opens", r.open() == nil)
+	}
 	var prev *HintItem
 	count := 0
-	for {
+	for mode == 0 {
 		it, err := r.next()
 		vrt.Assert("merged-read-ok", err == nil)
 		if it == nil || err != nil {
@@ -192,7 +205,9 @@ func VH_C14_U3_merge() {
 		vrt.Assert("merged-item-is-a-source-item", isWinner)
 		vrt.Assert("merged-item-has-greatest-position", !beaten)
 	}
-	r.close()
+	if mode == 0 {
+		r.close()
+	}
 	// every source (hash,key) is represented
 	distinct := 0
 	for s, items := range all {
@@ -220,5 +235,7 @@ func VH_C14_U3_merge() {
 			vrt.Assert("collision-table-exact", vrt.All(listed == coll, grouped == coll))
 		}
 	}
-	vrt.Assert("merged-count-is-number-of-distinct-keys", count == distinct)
+	if mode == 0 {
+		vrt.Assert("merged-count-is-number-of-distinct-keys", count == distinct)
+	}
 }
